@@ -40,17 +40,18 @@ example : check (run (init 32 1 16) single) (fun s =>
 
 /-! ## two threads: a claimed stride is skipped and later covered by the finisher -/
 
-/-- thread 0 initiates and claims `[16, 32)` with `i = 32`: "done" at once. Thread 1 joins. Thread 0
+/-- thread 0 initiates and claims `[16, 32)` with `i = 32`: "done" at once. Thread 1 joins through
+`add_count` (five accesses: `size_ctl`, `table`, `next_table`, `transfer_index`, CAS). Thread 0
 leaves (not last) without having touched a single bin of its stride. Thread 1 claims `[0, 16)` with
 `i = 16`, so it processes bins `16, 15, …, 0` (one bin into thread 0's stride), finds nothing left to
 claim, leaves as the last participant, becomes the finisher, and its sweep `31, …, 0` migrates the
 skipped bins `31 … 17` and sees `16 … 0` already moved. -/
 def two : List (Nat × Nat) :=
-  (0, 1) :: rep 6 (0, 0) ++ [(1, 2), (1, 0)] ++ rep 2 (0, 0) ++ rep 157 (1, 0)
+  (0, 1) :: rep 6 (0, 0) ++ [(1, 2), (1, 0), (1, 0), (1, 0), (1, 0)] ++ rep 2 (0, 0) ++ rep 157 (1, 0)
 
 /-- thread 0 is gone (idle, `i = 32`, `bound = 16` never processed); thread 1 has just become the
 finisher; bins `0 … 16` are moved, bins `17 … 31` – the rest of thread 0's stride – are not -/
-example : check (run (init 32 2 16) (two.take 67)) (fun s =>
+example : check (run (init 32 2 16) (two.take 70)) (fun s =>
     s.sizeCtl == .resizing 0 1 && s.transferIndex == 0 &&
     s.moved == List.replicate 17 true ++ List.replicate 15 false &&
     s.migrations == List.replicate 17 1 ++ List.replicate 15 0 &&
@@ -58,7 +59,7 @@ example : check (run (init 32 2 16) (two.take 67)) (fun s =>
       [(.idle, 32, 16, false), (.claimLoad, 32, 0, true)]) = true := by decide
 
 /-- the finisher's sweep has covered the skipped stride: every bin migrated exactly once -/
-example : check (run (init 32 2 16) (two.take 165)) (fun s =>
+example : check (run (init 32 2 16) (two.take 168)) (fun s =>
     s.migrations == List.replicate 32 1 && s.moved == List.replicate 32 true &&
     (s.threads.map (·.pc)) == [.idle, .pubClearNext]) = true := by decide
 
@@ -98,11 +99,11 @@ the *stale* value, joins, and claims `[0, 16)` of the new 64-bin table; the init
 overwrites the index with `64`. All safety theorems hold for this interleaving too (the claimed
 range is inside the new table and is simply visited again later). -/
 def staleIndex : List (Nat × Nat) :=
-  single ++ [(0, 1), (0, 0), (0, 0)] ++ [(1, 2), (1, 0), (1, 0), (1, 0)] ++ [(0, 0)]
+  single ++ [(0, 1), (0, 0), (0, 0)] ++ (1, 2) :: rep 6 (1, 0) ++ [(0, 0)]
 
 /-- thread 1 has claimed from the stale index (`i = 16`, `bound = 0`, index now `0`) although the
 initiator (thread 0) is still at `storeIndex` -/
-example : check (run (init 32 2 16) (staleIndex.take 117)) (fun s =>
+example : check (run (init 32 2 16) (staleIndex.take 120)) (fun s =>
     s.gen == 1 && s.n == 64 && s.sizeCtl == .resizing 1 3 && s.transferIndex == 0 &&
     (s.threads.map (fun l => (l.pc, l.i, l.bound))) == [(.storeIndex, -1, 16), (.dispatch, 16, 0)])
     = true := by decide
@@ -110,6 +111,55 @@ example : check (run (init 32 2 16) (staleIndex.take 117)) (fun s =>
 /-- … and then the initiator's store resets the index to `n = 64` -/
 example : check (run (init 32 2 16) staleIndex) (fun s =>
     s.transferIndex == 64 && (s.threads.map (·.pc)) == [.claimLoad, .dispatch]) = true := by decide
+
+/-! ## finding F6: what the generation comparison in `help_transfer` is for
+
+Table of 2 bins, 2 threads, stride 1. Thread 1 resizes generation 0 alone up to the point where it is
+the finisher at `pubClearNext` (17 steps). Thread 0 then meets a forwarding marker: it holds the
+tables of generation 0 (`(0, 3)`), validates `next_table == self.next_table` (`(0, 0)`); thread 1
+clears `next_table`; thread 0 validates `table == self.table` – still true; thread 1 swaps the table
+(generation 1) and stores the idle word, and immediately initiates the resize of generation 1: the
+word is `resizing 1 2`. Only now thread 0 loads `size_ctl`. The word is of another generation than
+the tables thread 0 holds, `cnt = 2` is neither `1` nor `MAX_RESIZERS`, `transfer_index` is still
+positive (left over, see below) – without the comparison of the stamps the CAS `resizing 1 2 → resizing 1 3`
+succeeds and thread 0 has joined the resize of generation 1 with the tables of generation 0. -/
+def staleJoin : List (Nat × Nat) :=
+  [(1, 1), (1, 0), (1, 0), (1, 0), (1, 0), (1, 0), (1, 0), (1, 0), (1, 0), (1, 0), (1, 0), (1, 0),
+   (1, 0), (1, 0), (1, 0), (1, 0), (1, 0), (0, 3), (0, 0), (1, 0), (0, 0), (1, 0), (1, 0), (1, 1),
+   (1, 0), (0, 0), (0, 0), (0, 0)]
+
+/-- without the generation comparison the schedule ends with a stale join … -/
+example : (run (init 2 2 1 false) staleJoin).map (·.staleJoins) = some 1 := by decide
+
+/-- … the word counts a participant nobody knows (`resizing 1 3` with one participant) -/
+example : check (run (init 2 2 1 false) staleJoin) (fun s =>
+    s.gen == 1 && s.sizeCtl == .resizing 1 3 && numParticipants s == 1 &&
+    (s.threads.map (fun l => (l.pc, l.heldGen))) == [(.idle, 0), (.swapNext, 0)]) = true := by decide
+
+/-- the situation just before the CAS: thread 0 holds generation 0 and a word of generation 1 -/
+example : check (run (init 2 2 1 false) (staleJoin.take 27)) (fun s =>
+    s.gen == 1 && s.sizeCtl == .resizing 1 2 && s.transferIndex == 1 &&
+    (s.threads.map (fun l => (l.pc, l.heldGen))) ==
+      [(.casJoin (.resizing 1 2), 0), (.swapNext, 0)]) = true := by decide
+
+/-- with the comparison (the code as it is) the same schedule has no stale join: thread 0 is refused
+at the load of `size_ctl` (and its last two steps are idle steps) -/
+example : (run (init 2 2 1 true) staleJoin).map (·.staleJoins) = some 0 := by decide
+
+example : check (run (init 2 2 1 true) (staleJoin.take 26)) (fun s =>
+    s.gen == 1 && s.sizeCtl == .resizing 1 2 &&
+    (s.threads.map (fun l => (l.pc, l.heldGen))) == [(.idle, 0), (.swapNext, 0)]) = true := by decide
+
+/-- the same, as a statement about reachable states (`Reachable` has the comparison in place) -/
+example : ∃ s, Reachable 2 2 1 s ∧ s.gen = 1 ∧ s.sizeCtl = .resizing 1 2 ∧ s.staleJoins = 0 := by
+  have hc : check (run (init 2 2 1) staleJoin) (fun s =>
+      s.gen == 1 && s.sizeCtl == .resizing 1 2 && s.staleJoins == 0) = true := by decide
+  cases hrun : run (init 2 2 1) staleJoin with
+  | none => rw [hrun] at hc; simp [check] at hc
+  | some s =>
+    rw [hrun] at hc
+    simp only [check, Bool.and_eq_true, beq_iff_eq] at hc
+    exact ⟨s, reachable_run Reachable.init hrun, hc.1.1, hc.1.2, hc.2⟩
 
 /-! ## the measure on a concrete run: `mu` strictly decreases along the 157 steps of thread 1 -/
 
@@ -121,7 +171,7 @@ def strictlyDecreasing : List Nat → Bool
   | a :: b :: r => decide (b < a) && strictlyDecreasing (b :: r)
   | _ => true
 
-example : check (run (init 32 2 16) (two.take 11)) (fun s =>
+example : check (run (init 32 2 16) (two.take 14)) (fun s =>
     strictlyDecreasing (muTrace s (rep 157 (1, 0)))) = true := by decide
 
 end Flurry.Proto.Resize
